@@ -414,6 +414,16 @@ theorem parse_fv : ∀ (v : FvI), wfFv v = true → ∀ (fuel : Nat) (rest : Byt
     have hblocks := fv_readBlocks_ffs zv v3 attrs rev rsv blocks ext files free rest w
     rw [parseFv, if_neg (by simp only [List.length_append, hlen]; have := w.hlen64; omega), hblocks]
     simp only [hinfo, treeFv, Fv.info]
+    have hbm : ¬ (56 + 8 * (blocks.length + 1) > endFiles (preLen blocks ext) files + free) := by
+      have h1 := endFiles_ge files (preLen blocks ext)
+      have h2 : fvHdrLen blocks ≤ preLen blocks ext := by
+        cases ext with
+        | none => simp only [preLen]; omega
+        | some e =>
+          have := alignUp_ge (fvHdrLen blocks + e.gap.length + 20 + e.data.length) 8 (by decide)
+          simp only [preLen]; omega
+      simp only [fvHdrLen] at h2; omega
+    rw [if_neg hbm]
     rw [setPolarity_ff attrs st w.hpol hp]
     dsimp only
     have hsup : ¬ ((if v3 then guidFFS3 else guidFFS2) ≠ guidFFS2 ∧ (if v3 then guidFFS3 else guidFFS2) ≠ guidFFS3) := by
@@ -445,6 +455,8 @@ theorem parse_fv : ∀ (v : FvI), wfFv v = true → ∀ (fuel : Nat) (rest : Byt
     have hblocks := fv_readBlocks_other zv g attrs rev rsv blocks body rest w
     rw [parseFv, if_neg (by simp only [List.length_append, hlen, fvHdrLen]; omega), hblocks]
     simp only [hinfo, treeFv, Fv.info]
+    rw [if_neg (show ¬ (56 + 8 * (blocks.length + 1) > fvHdrLen blocks + body.length) by
+      simp only [fvHdrLen]; omega)]
     rw [setPolarity_ff attrs st w.hpol hp]
     dsimp only
     have hfit : ¬ (fvHdrLen blocks + body.length >
